@@ -237,6 +237,43 @@ def check_case(case):
     return out
 
 
+MSGSET_WRAPPERS = {
+    "BANKMSGSRQV1": ["STMTTRNRQ", "STMTENDTRNRQ"], "BANKMSGSRSV1": ["STMTTRNRS", "STMTENDTRNRS"],
+    "CREDITCARDMSGSRQV1": ["CCSTMTTRNRQ", "CCSTMTENDTRNRQ"], "CREDITCARDMSGSRSV1": ["CCSTMTTRNRS", "CCSTMTENDTRNRS"],
+    "INVSTMTMSGSRQV1": ["INVSTMTTRNRQ"], "INVSTMTMSGSRSV1": ["INVSTMTTRNRS"],
+}
+
+
+@st.composite
+def statement_msgset(draw, name):
+    """A message set whose members are statement and closing-statement wrappers only, interleaved in any order, each
+    actually carrying its statement."""
+    U = M.universe()
+    members = []
+    for _ in range(draw(st.integers(2, 6))):
+        w = draw(st.sampled_from(MSGSET_WRAPPERS[name]))
+        d = draw(M.instance_st(U[w], depth=2, max_members=1, p0=0.3))
+        attr = STATEMENT_WRAPPERS[w]
+        if attr not in d["kw"]:
+            inner = {a: t for a, k, t in M.decl(U[w])}[attr].__type__
+            d["kw"][attr] = M.minimal(inner)
+        members.append(d)
+    return {"cls": name, "kw": {}, "list": members}
+
+
+@st.composite
+def statement_ofx(draw):
+    side = draw(st.sampled_from(["RQ", "RS"]))
+    U = M.universe()
+    kw = {}
+    so = "SIGNONMSGS" + side + "V1"
+    kw[so.lower()] = M.minimal(U[so])
+    for ms in ("BANKMSGS", "CREDITCARDMSGS", "INVSTMTMSGS"):
+        if draw(st.booleans()):
+            kw[(ms + side + "V1").lower()] = draw(statement_msgset(ms + side + "V1"))
+    return {"cls": "OFX", "kw": kw, "list": []}
+
+
 DENSE = ["OFX", "BANKMSGSRQV1", "BANKMSGSRSV1", "CREDITCARDMSGSRQV1", "CREDITCARDMSGSRSV1", "INVSTMTMSGSRQV1", "INVSTMTMSGSRSV1", "SECLISTMSGSRSV1", "STMTRS", "CCSTMTRS", "INVSTMTRS", "SONRS", "STMTTRN", "INVBUY"]
 
 
@@ -269,7 +306,28 @@ def _worker(job):
     return s
 
 
+def _stmt_worker(job):
+    H.setup_path()
+    which, n, seed = job
+    s = H.Stats()
+    strat = (statement_ofx() if which == "OFX" else statement_msgset(which)).map(lambda d: {"inst": d, "names": MISS_NAMES[:2]})
+
+    def body(case):
+        kinds = [m["cls"] for m in case["inst"]["list"]] if which != "OFX" else [m["cls"] for v in case["inst"]["kw"].values() for m in v["list"]]
+        labs = ["statement-focused message set"]
+        if len(set(kinds)) >= 2:
+            labs.append("statement and closing-statement wrappers interleaved")
+        s.case(case, nontrivial=len(kinds) >= 2, labels=labs)
+        for k, d in check_case(case):
+            s.fail(k, case, d)
+
+    H.hyp_run(strat, body, n, seed)
+    return s
+
+
 def run(ctx):
+    ns = ctx.scale(15, 200)
+    ctx.pmap(_stmt_worker, [(w, ns, ctx.sub_seed("stmt", w)) for w in list(MSGSET_WRAPPERS) + ["OFX", "OFX"]])
     names = sorted(M.universe())
     n = ctx.scale(6, 80)
     jobs = [(names[i::40], n, ctx.sub_seed("all"), False) for i in range(40)]
